@@ -545,6 +545,44 @@ def controlled_refusal_search(ctx, base):
     ctx.ob("C12_search_refuse_controlled", len(ctx.failures) == bad0, "search", "")
 
 
+def huge_angle_circuits(rng, base, count):
+    """rotations at huge multiples of the period: RX/RY/RZ at k*pi/2 (and off by a quarter period),
+    CRX/CRY/CRZ at k*pi and at (k + 1/2)*pi (flag True by known finding K12-2 where the float quotient
+    is an integer: the engine must raise ValueError), 10^4 <= |k| <= 10^7, after a short Clifford prefix."""
+    from qibo import gates
+
+    out = []
+    decades = [(10**4, 10**5), (5 * 10**4, 2 * 10**5), (10**5, 10**6), (10**6, 10**7)]
+    for i in range(count):
+        lo, hi = decades[i % len(decades)]
+        k = rng.randint(lo, hi) * rng.choice([1, -1])
+        kind = i % 6
+        n = rng.randint(2, 4)
+        pre = base.random_clifford_gates(rng, n, rng.randint(0, 4), rotations=False)
+        g = None
+        if kind in (0, 1):
+            name = rng.choice(ROT2)
+            # (k + 1/2) * pi: prefer spellings whose flag is True (the interesting case), up to 30 tries
+            for _ in range(30):
+                th = rng.choice([(k + 0.5) * math.pi, (2 * k + 1) * (math.pi / 2), (2 * k + 1) * math.pi / 2])
+                g = getattr(gates, name)(*rng.sample(range(n), 2), th)
+                if g.clifford:
+                    break
+                k += rng.choice([1, -1])
+        elif kind == 2:
+            g = getattr(gates, rng.choice(ROT2))(*rng.sample(range(n), 2), rng.choice([k * math.pi, (2 * k) * (math.pi / 2)]))
+        elif kind in (3, 4):
+            for _ in range(30):
+                g = getattr(gates, rng.choice(ROT1))(rng.randrange(n), rng.choice([k * math.pi / 2, k * (math.pi / 2), (k / 2) * math.pi]))
+                if g.clifford:
+                    break
+                k += 1
+        else:
+            g = getattr(gates, rng.choice(ROT1))(rng.randrange(n), (k + rng.choice([0.5, 0.25])) * math.pi / 2)
+        out.append((n, pre + [g] + base.random_clifford_gates(rng, n, rng.randint(0, 2), rotations=False)))
+    return out
+
+
 def accept_correspondence(ctx, base):
     from qibo import gates
 
@@ -577,6 +615,10 @@ def accept_correspondence(ctx, base):
             pre = base.random_clifford_gates(rng, n, rng.randint(0, 8))
             init = np.asarray(be.execute_circuit(base.build(n, pre or [gates.I(0)])).symplectic_matrix).astype(np.uint8)
         circuits.append((n, gs, init, None))
+    # HUGE multiples: k*pi/2 and (k + 1/2)*pi with |k| up to 10^7 (float spacing still resolves pi/2): the
+    # engine must dispatch on the exact integer index or raise, never round a half-integer multiple of pi
+    for n, gs in huge_angle_circuits(rng, base, 90 if ctx.thorough else 36):
+        circuits.append((n, gs, None, None))
     # every position of one unflagged gate in an otherwise Clifford circuit (first, last, behind M)
     for _ in range(30 if ctx.thorough else 10):
         n = rng.randint(1, 4)
@@ -691,9 +733,238 @@ def accept_correspondence(ctx, base):
     ctx.ob("C12_corr_accept", bad == 0, "correspondence", f"{bad} disagreements of {len(circuits)}" if bad else f"{len(circuits)} circuits")
 
 
+SV_REPLAY = """
+P = {'X': np.array([[0, 1], [1, 0]]), 'Y': np.array([[0, -1j], [1j, 0]]), 'Z': np.diag([1, -1])}
+def full(g, n):
+    cc = Circuit(n); cc.add(g); return np.asarray(cc.unitary())
+def history_possible(n, prep, items, mids, final_qs, final_bits):
+    psi = np.zeros(2 ** n, dtype=complex); psi[0] = 1
+    for g in prep:
+        psi = full(g, n) @ psi
+    it = iter(mids)
+    for kind, g in items:
+        if kind == 'G':
+            psi = full(g, n) @ psi
+        elif kind == 'N':
+            psi = full(g, n) @ psi
+        elif kind == 'C':
+            qs, bits = g, next(it)
+            keep = np.array([all(((i >> (n - 1 - q)) & 1) == int(b) for q, b in zip(qs, bits)) for i in range(2 ** n)])
+            psi = np.where(keep, psi, 0)
+            if np.linalg.norm(psi) < 1e-9:
+                return False
+    p = sum(abs(psi[i]) ** 2 for i in range(2 ** n) if all(((i >> (n - 1 - q)) & 1) == int(b) for q, b in zip(final_qs, final_bits)))
+    return p > 1e-9
+"""
+
+
+def _history_possible(base, n, prep, gs, mids, final_qs, final_bits):
+    """projective state-vector simulation from the state prepared by `prep`: can the collapse outcomes
+    `mids` (one list per collapsing M, gate order) and the final sample occur?"""
+    from vlib import qgates
+
+    psi = base.sv_state(n, prep) if prep else np.eye(2**n, dtype=complex)[:, 0]
+    it = iter(mids)
+    for g in gs:
+        name = g.__class__.__name__
+        if name == "M":
+            if not g.collapse:
+                continue
+            bits = next(it)
+            keep = np.array([all(((i >> (n - 1 - q)) & 1) == int(b) for q, b in zip(g.target_qubits, bits)) for i in range(2**n)])
+            psi = np.where(keep, psi, 0)
+            if np.linalg.norm(psi) < 1e-9:
+                return False
+        elif name == "PauliNoiseChannel":
+            drawn = getattr(g, "_c12_drawn", None)
+            if drawn:
+                from qibo import gates
+
+                psi = qgates.gate_full_matrix(getattr(gates, drawn)(g.target_qubits[0]), n) @ psi
+        else:
+            psi = qgates.gate_full_matrix(g, n) @ psi
+    p = sum(abs(psi[i]) ** 2 for i in range(2**n) if all(((i >> (n - 1 - q)) & 1) == int(b) for q, b in zip(final_qs, final_bits)))
+    return p > 1e-9
+
+
+def repeated_correspondence(ctx, base):
+    """`execute_circuit(circuit, initial_state, nshots)` with collapsing measurements / noise draws
+    (repeated-execution path for nshots != 1) against the model `executeRepeated`: per shot the
+    collapse outcomes and the final sample, the observed random bits being fed to the model as coins
+    (every determined bit must then coincide), and against the projective state-vector simulation
+    from the state the initial tableau was prepared in."""
+    from qibo import gates
+    from qibo.backends import CliffordBackend
+
+    rng = ctx.rng
+    np.random.seed(rng.randrange(2**32))
+    cases = []
+    # the documented situation: |10>, M(0, collapse), CNOT(0,1), M(0,1) -> 11 in every shot
+    cases.append((2, [gates.X(0)], [gates.M(0, collapse=True), gates.CNOT(0, 1), gates.M(0, 1)], 5))
+    ch = gates.PauliNoiseChannel(1, [("X", 1.0)])
+    ch._c12_drawn = "X"
+    cases.append((2, [gates.X(0)], [ch, gates.M(0, 1)], 2))
+    cases.append((2, [gates.X(1), gates.H(0)], [gates.CNOT(0, 1), gates.M(1, 0, collapse=True), gates.H(0), gates.M(1), gates.M(0)], 5))
+    for i in range(110 if ctx.thorough else 36):
+        n = rng.randint(1, 4)
+        prep = base.random_clifford_gates(rng, n, rng.randint(0, 8), rotations=False) if i % 4 else []
+        if i % 4 and rng.random() < 0.5:
+            prep = [gates.X(q) for q in range(n) if rng.random() < 0.6] + prep
+        gs = []
+        need = rng.choice(["M", "N", "MN"])
+        for _ in range(rng.randint(0, 3)):
+            gs.append(base.random_clifford_gate(rng, n, False))
+        if "M" in need:
+            gs.append(gates.M(*rng.sample(range(n), rng.randint(1, n)), collapse=True))
+            for _ in range(rng.randint(0, 3)):
+                gs.append(base.random_clifford_gate(rng, n, False))
+        if "N" in need:
+            q = rng.randrange(n)
+            p = rng.choice(["X", "Y", "Z"])
+            sure = rng.random() < 0.7
+            g = gates.PauliNoiseChannel(q, [(p, 1.0 if sure else 0.0)])
+            g._c12_drawn = p if sure else None
+            gs.append(g)
+            for _ in range(rng.randint(0, 2)):
+                gs.append(base.random_clifford_gate(rng, n, False))
+        fin = rng.sample(range(n), rng.randint(1, n))
+        if len(fin) > 1 and rng.random() < 0.4:
+            cut = rng.randint(1, len(fin) - 1)
+            gs += [gates.M(*fin[:cut]), gates.M(*fin[cut:])]
+        else:
+            gs.append(gates.M(*fin))
+        cases.append((n, prep, gs, rng.choice([1, 2, 5])))
+    lines, meta = [], []
+    for n, prep, gs, nshots in cases:
+        gs = [clone(g) for g in gs]
+        be = CliffordBackend("numpy")
+        init = None
+        if prep:
+            init = np.asarray(be.execute_circuit(base.build(n, base.regen(prep))).symplectic_matrix).astype(np.uint8)
+        try:
+            c = base.build(n, gs)
+        except Exception:  # noqa: BLE001
+            ctx.stat("repeated_unbuildable")
+            continue
+        final_qs = [q for m in c.measurements for q in m.target_qubits]
+        collapsing = [g for g in gs if g.__class__.__name__ == "M" and g.collapse]
+        descr = [src_of(g, base) for g in gs]
+        pdescr = [base.gate_src(g) for g in prep]
+        ctx.case(("repeated", n, tuple(pdescr), tuple(descr), nshots))
+        ctx.stat(f"repeated_nshots{nshots}" + ("_init" if prep else ""))
+        err = None
+        try:
+            init_in = None if init is None else np.array(init, copy=True)
+            r = be.execute_circuit(c, initial_state=init_in, nshots=nshots)
+            F = np.asarray(r.samples()).astype(int).reshape(nshots, len(final_qs))
+            mids = [[[int(b) for b in np.asarray(g.result.samples()[i]).reshape(-1)] for g in collapsing] for i in range(nshots)]
+            untouched = init is None or np.array_equal(init_in, init)
+        except Exception as e:  # noqa: BLE001
+            err = f"{type(e).__name__}: {e}"
+        if err is None:
+            shots = []
+            for i in range(nshots):
+                coins = []
+                for g, bits in zip(collapsing, mids[i]):
+                    qs = list(g.target_qubits)
+                    coins += [bits[qs.index(q)] for q in sorted(qs)]
+                shots.append(f"{len(coins)} " + " ".join(map(str, coins)) + " " + " ".join(str(int(b)) for b in F[i]))
+            items = [item_of(g) for g in gs]
+            lines.append(f"RP {n} {0 if init is None else 1} {'' if init is None else base.tab_tokens(init)} {len(items)} " + " ".join(items)
+                         + f" {len(final_qs)} " + " ".join(map(str, final_qs)) + f" {nshots} " + " ".join(shots))
+        else:
+            lines.append("")
+        meta.append((n, prep, gs, nshots, final_qs, err, None if err else (F, mids, untouched), descr, pdescr))
+    outs = run_driver([l for l in lines if l], driver=DRIVER)
+    oi = iter(outs)
+    bad = 0
+    for (n, prep, gs, nshots, final_qs, err, obs, descr, pdescr), line in zip(meta, lines):
+        out = next(oi) if line else None
+        ok = err is None
+        why = err or ""
+        if ok:
+            F, mids, untouched = obs
+            real = " / ".join(",".join("".join(map(str, b)) for b in mids[i]) + ";" + "".join(str(int(b)) for b in F[i]) for i in range(nshots))
+            if out.strip() != real:
+                ok, why = False, f"model {out.strip()} / real {real}"
+            elif not untouched:
+                ok, why = False, "initial_state mutated"
+            else:
+                for i in range(nshots):
+                    if not _history_possible(base, n, prep, gs, mids[i], final_qs, F[i]):
+                        ok, why = False, f"shot {i} impossible for the state-vector simulation: {real}"
+                        break
+        if ok:
+            continue
+        bad += 1
+        key = ("repeated:initial-state" if prep else "repeated:history") + ("" if nshots != 1 else ":single-run")
+        items_src = ", ".join(("('C', %r)" % (list(g.target_qubits),)) if (g.__class__.__name__ == "M" and g.collapse)
+                              else ("('N', gates.%s(%d))" % (g._c12_drawn, g.target_qubits[0])) if g.__class__.__name__ == "PauliNoiseChannel" and getattr(g, "_c12_drawn", None)
+                              else ("('G', %s)" % base.gate_src(g)) for g in gs
+                              if not (g.__class__.__name__ == "M" and not g.collapse) and not (g.__class__.__name__ == "PauliNoiseChannel" and not getattr(g, "_c12_drawn", None)))
+        mvars = [f"m{j}" for j, g in enumerate(gs) if g.__class__.__name__ == "M" and g.collapse]
+        build_lines = []
+        j = 0
+        for idx, g in enumerate(gs):
+            if g.__class__.__name__ == "M" and g.collapse:
+                build_lines.append(f"m{idx} = gates.M({', '.join(map(str, g.target_qubits))}, collapse=True)\nc.add(m{idx})\n")
+            else:
+                build_lines.append(f"c.add({src_of(g, base)})\n")
+        py = base.HEAD + SV_REPLAY + f"np.random.seed(7)\nn = {n}\nprep = [{', '.join(pdescr)}]\nbe = CliffordBackend('numpy')\n" \
+            + ("init = None\n" if not prep else f"p = Circuit(n)\nfor g in prep:\n    p.add(g)\ninit = be.execute_circuit(p).symplectic_matrix\n") \
+            + "c = Circuit(n)\n" + "".join(build_lines) \
+            + f"r = be.execute_circuit(c, initial_state=None if init is None else np.copy(init), nshots={nshots if nshots == 1 else max(nshots, 5)})\nF = np.asarray(r.samples()).reshape(-1, len({final_qs}))\n" \
+            + f"final_qs = {final_qs}\nitems = [{items_src}]\nmgs = [{', '.join(mvars)}]\n" \
+            + "for i, row in enumerate(F):\n    mids = [np.asarray(m.result.samples()[i]).reshape(-1) for m in mgs]\n" \
+            + "    assert history_possible(n, prep, items, mids, final_qs, row), (i, [list(map(int, m)) for m in mids], list(map(int, row)))\n"
+        ctx.fail(key, f"execute_circuit(initial_state prepared by {pdescr}, nshots={nshots}) of {descr}: {why[:300]}", py,
+                 expected="every shot a possible history from the prepared state, determined bits as in the model", observed=why[:300], broken=["C12_corr_repeated"])
+    ctx.ob("C12_corr_repeated", bad == 0, "correspondence", f"{bad} disagreements of {len(meta)}" if bad else f"{len(meta)} executions")
+
+
+def stim_controlled_search(ctx, base):
+    """the stim engine must refuse (or simulate correctly) unflagged `controlled_by` gates whose class
+    name it knows: they are not Clifford operations."""
+    try:
+        import stim  # noqa: F401
+    except Exception:  # noqa: BLE001
+        return
+    from qibo import gates
+
+    bad0 = len(ctx.failures)
+    be = base.cliff_backend("stim")
+    cases = [(3, [gates.H(0), gates.H(1).controlled_by(0)]), (3, [gates.H(0), gates.S(1).controlled_by(0)]),
+             (3, [gates.H(0), gates.H(1), gates.Z(2).controlled_by(0, 1)]), (4, [gates.H(0), gates.H(1), gates.H(2), gates.X(3).controlled_by(0, 1, 2)]),
+             (3, [gates.H(0), gates.H(1), gates.Y(2).controlled_by(0, 1)]), (2, [gates.H(0), gates.SX(1).controlled_by(0)]),
+             (2, [gates.H(1).controlled_by(0), gates.H(0)])]
+    for n, gs in cases:
+        ctx.case(("stim-controlled", n, tuple(base.gate_src(g) for g in gs)))
+        try:
+            r = be.execute_circuit(base.build(n, [clone(g) for g in gs]))
+        except Exception:  # noqa: BLE001
+            ctx.stat("stim_refused_controlled")
+            continue
+        psi = base.sv_state(n, gs)
+        try:
+            same = np.allclose(np.asarray(r.state()), np.outer(psi, psi.conj()), atol=1e-9)
+        except Exception:  # noqa: BLE001
+            same = False
+        if same:
+            ctx.stat("stim_controlled_right_state")
+            continue
+        ctx.fail("stim-accepts-nonclifford:controlled_by",
+                 f"the stim engine accepts the non-Clifford circuit {[base.gate_src(g) for g in gs]} and executes the controlled gate as the uncontrolled gate on controls and targets (wrong state)",
+                 base.HEAD + base.circuit_src(n, gs) + "try:\n    r = CliffordBackend('stim').execute_circuit(c)\nexcept Exception:\n    raise SystemExit(0)\n"
+                 "sv = NumpyBackend().execute_circuit(c).state()\nassert np.allclose(r.state(), np.outer(sv, sv.conj()), atol=1e-9), 'accepted, wrong state'\n",
+                 expected="RuntimeError: Circuit contains non-Clifford gates.", observed="accepted, wrong state", broken=["C12_search_stim_controlled"])
+    ctx.ob("C12_search_stim_controlled", len(ctx.failures) == bad0, "search", "")
+
+
 def run_suites(ctx, base):
     cases = synth_correspondence(ctx, base)
     bm20_correspondence(ctx, base, cases)
     group_suite(ctx, base)
     accept_correspondence(ctx, base)
     controlled_refusal_search(ctx, base)
+    repeated_correspondence(ctx, base)
+    stim_controlled_search(ctx, base)
